@@ -56,7 +56,7 @@ fn bases(tier: Tier) -> Vec<Base> {
 fn n_sampled_chunks(tier: Tier) -> u64 {
     match tier {
         Tier::Quick => 3_000,
-        Tier::Thorough => 40_000,
+        Tier::Thorough => 120_000,
     }
 }
 
